@@ -3,6 +3,8 @@
 import PysersicModel.Scalar
 import PysersicModel.Gen.Consts
 import PysersicModel.Opt.EarlyStop
+import PysersicModel.Imp
+import PysersicModel.Gen.EarlyStopProg
 import PysersicModel.IO.SkyEstimate
 import PysersicModel.IO.Validate
 import PysersicModel.IO.Names
